@@ -326,11 +326,18 @@ Proof. intros. eapply presG_ext; [apply seq_ifS_distr|assumption]. Qed.
    [absurd] tries to show that guard and invariant contradict each other (goal: forall log s, G s -> I log s -> False). *)
 Ltac head_of t := match t with ?f _ => head_of f | _ => t end.
 
+(* the role test of onConnect-raises is split here, outside any section (a [destruct (is_server c)] inside a section
+   whose hypotheses mention is_server c would make that section's lemmas unusable for the rest of the proof) *)
+Lemma presG_hcr : forall (G : cstate -> Prop) I c txt,
+  presG G I (handshake_bad c) -> presG G I (client_connect_raises c txt) -> presG G I (handshake_connect_raises c txt).
+Proof. intros. unfold handshake_connect_raises. destruct (is_server c); assumption. Qed.
+
 Ltac pres_node leaf blocks absurd :=
   first [ solve [ apply presG_absurd; absurd ] |
   lazymatch goal with
   | |- presL _ _ => first [ blocks | apply presL_of_G ]
   | |- presG _ _ ret => apply presG_ret
+  | |- presG _ _ (handshake_connect_raises _ _) => first [ blocks | apply presG_hcr ]
   | |- presG _ _ (seqM (say _) _) => first [ blocks | apply presG_seq_say ]
   | |- presG _ _ (seqM (upd _) _) => first [ blocks | apply presG_seq_upd ]
   | |- presG _ _ (seqM ret _) => apply presG_seq_ret
